@@ -132,14 +132,14 @@ def run(ctx):
         # ------------------------------------------------------------------ 2. TLC cases on the real TiledWriter
         t1 = time.time()
         nontriv = [c for c in cases if any(h["op"] == "stream_datum" for h in c["hist"]) and any(h["op"] == "event" for h in c["hist"])]
-        pick = rng.sample(nontriv, min(len(nontriv), 18 if q else 1100)) + rng.sample(cases, min(len(cases), 4 if q else 100))
+        pick = rng.sample(nontriv, min(len(nontriv), 18 if q else 600)) + rng.sample(cases, min(len(cases), 4 if q else 50))
         for c in pick:
             ops = [{"op": h["op"], "d": h["d"], "r": h["r"], "a": h["a"], "b": h["b"]} for h in c["hist"] if h["op"] != "stop"]
             execute(ops, list(c["keyof"]), c["batch"], "tlc-case", exp=c)
         ctx.note(f"phase replay of {len(pick)} of {len(cases)} TLC cases: {time.time() - t1:.1f}s")
         # ------------------------------------------------------------------ 3. random runs
         t1 = time.time()
-        nrand = 20 if q else 700
+        nrand = 20 if q else 400
         for i in range(nrand):
             ops, keyof = th.random_batch_ops(rng, max_ev=6 if q else 9, max_sd=5 if q else 7)
             execute(ops, keyof, rng.choice([0, 1, 2, 2, 3, 3, 5]), f"random:{i}", pages=rng.random() < 0.5)
@@ -154,20 +154,27 @@ def run(ctx):
         ctx.add_tlc(r, "TiledBatchTrace")
     ctx.traces(nacc)
     ctx.note(f"phase trace validation: {time.time() - t1:.1f}s")
-    for idx, kind, detail in problems:
-        if idx < 0:
-            ctx.machinery(f"TiledBatchTrace: {kind} {detail}")
+    unfinished = [d for i, k, d in problems if i < 0]
+    real = [p for p in problems if p[0] >= 0]
+    if unfinished and not real:
+        ctx.machinery(f"TiledBatchTrace: {unfinished}")
+    for idx, kind, detail in real:
         lb = labels[idx]
         t = traces[idx]
-        if kind == "invariant":
-            aspect = {"C46_ReadBackRows": "rows", "C46_ReadBackArrays": "arrays", "C46_ReadBackMetadata": "metadata",
-                      "C46_ReadBackNodes": "nodes"}.get(detail, detail)
-            ctx.violation(f"read-back:{aspect}:batch={lb['batch']}:keyof={lb['keyof']}:{ops_sig(lb['ops'])}",
-                          f"after stop the Tiled container of run {ops_sig(lb['ops'])} written with batch_size={lb['batch']} differs from the specification "
-                          f"({detail}): read back {json.dumps(t[-1])[:700]}", dict(lb, trace=t))
+        if kind == "readback":
+            aspects = [nm for bit, nm in ((1, "rows"), (2, "arrays"), (4, "metadata"), (8, "nodes")) if detail & bit]
+            for aspect in aspects:
+                ctx.violation(f"read-back:{aspect}:batch={lb['batch']}:keyof={lb['keyof']}:{ops_sig(lb['ops'])}",
+                              f"after stop the Tiled container of run {ops_sig(lb['ops'])} written with batch_size={lb['batch']} differs from what "
+                              f"TiledBatch.tla specifies ({aspect}): read back {json.dumps(t[-1])[:700]}", dict(lb, trace=t))
+        elif kind == "invariant":
+            ctx.violation(f"trace-invariant:{detail}:batch={lb['batch']}:{ops_sig(lb['ops'])}",
+                          f"{detail} violated on the recorded execution of run {ops_sig(lb['ops'])} (batch_size={lb['batch']})", dict(lb, trace=t))
         else:
             ctx.violation(f"trace-rejected:batch={lb['batch']}:{ops_sig(lb['ops'])}",
                           f"TiledWriter execution not explained by TiledBatch.tla at step {detail}: {t[detail] if detail < len(t) else None}", dict(lb, trace=t))
+    if unfinished:
+        ctx.note(f"trace validation stopped early: {unfinished}")
     ctx.assumptions += [
         "events of a stream arrive in seq_num order (1, 2, ...) as the RunEngine emits them; event values are floats/ints of one type per column",
         "external data: hdf5 stream resources, one number per index, `_validate` not requested (validation deliberately replaces the "
